@@ -379,7 +379,7 @@ func closeServer(c *vh.Case, w *world) {
 }
 
 func genC10(r *vh.Runner) {
-	per := r.Pick(96, 2000)
+	per := r.Pick(96, 30000)
 	for _, cfg := range configs {
 		for b := 0; b < per; b++ {
 			r.Case(fmt.Sprintf("%s/batch/%d", cfg, b), map[string]any{"config": cfg, "batch": b}, func(c *vh.Case) {
